@@ -22,11 +22,11 @@ ASSUMPTIONS = [
 ]
 TRUSTED = ["vf/crc.py", "vf/ic10_isa.py ISA table", "vf/refdata/structures_pinned.json"]
 
-STREAMS = ["structures", "intrinsics", "enums"]
+STREAMS = ["structures", "intrinsics", "enums", "compiled"]
 
 
 def plan(tier, seed):
-    return dict(tasks=[dict(stream=s, lo=0, hi=1) for s in STREAMS], nworkers=3, timeout=300, max_samples=6)
+    return dict(tasks=[dict(stream=s, lo=0, hi=1) for s in STREAMS], nworkers=4, timeout=300, max_samples=6)
 
 
 def worker_init():
@@ -336,6 +336,67 @@ def check_intrinsics():
     return vio, cnt, keys, dict(kind="intrinsic", name="lbn", call="lbn(101,102,103,104)", emitted="lbn <out> 101 102 103 104", isa="R V V T B")
 
 
+def check_compiled_intrinsics():
+    """The same obligation one level up: a call of an intrinsic in a program, compiled by compile_code, must put the
+    arguments on the operands their parameters name - also when the call binds them by keyword, in any order, or mixes
+    positional and keyword arguments (Python binds by name; the wrappers themselves do)."""
+    from stationeers_pytrapic import intrinsics as I
+    from stationeers_pytrapic.compiler import compile_code
+    from stationeers_pytrapic.compile_pass import CompileOptions
+
+    vio = []
+    cnt = dict(compiled_calls=0, compiled_calls_judged=0, compiled_keyword_forms=0, compiled_forms_rejected=0)
+    keys = []
+    fns = [(n, f) for n, f in vars(I).items() if inspect.isfunction(f) and f.__module__ == I.__name__]
+    sample = None
+    for n, f in fns:
+        op = n[:-1] if n.endswith("_") else n
+        sig = ic10_isa.ISA.get(op)
+        params = list(inspect.signature(f).parameters)
+        if not sig or sig[0] != "R" or len(sig) < 3 or any(k != "V" for k in sig[1:]) or len(params) != len(sig) - 1:
+            continue
+        for xpos in range(len(params)):
+            vals = ["x" if j == xpos else str(101 + j) for j in range(len(params))]
+            forms = {
+                "positional": ", ".join(vals),
+                "keywords": ", ".join(f"{p}={v}" for p, v in zip(params, vals)),
+                "keywords-reversed": ", ".join(f"{p}={v}" for p, v in reversed(list(zip(params, vals)))),
+                "mixed": ", ".join([vals[0]] + [f"{p}={v}" for p, v in reversed(list(zip(params[1:], vals[1:])))]),
+                "keywords-rotated": ", ".join(f"{p}={v}" for p, v in (list(zip(params, vals))[1:] + list(zip(params, vals))[:1])),
+            }
+            for form, argtext in forms.items():
+                src = f"from stationeers_pytrapic.symbols import *\nx = db.Setting\ny = {n}({argtext})\ndb.Setting = y\n"
+                for compact in (False, True):
+                    cnt["compiled_calls"] += 1
+                    try:
+                        res = compile_code(src, CompileOptions(compact=compact, append_version=False))
+                    except Exception as e:
+                        res = {"error": repr(e)}
+                    code = res.get("code") if isinstance(res, dict) else None
+                    if not isinstance(code, str):
+                        cnt["compiled_forms_rejected"] += 1
+                        continue
+                    got = None
+                    for line in code.splitlines():
+                        t = line.split("#")[0].split()
+                        if t and t[0] == op:
+                            got = t[2:]
+                            break
+                    if got is None:
+                        cnt["compiled_call_not_emitted_as_instruction"] = cnt.get("compiled_call_not_emitted_as_instruction", 0) + 1
+                        continue
+                    cnt["compiled_calls_judged"] += 1
+                    if form != "positional":
+                        cnt["compiled_keyword_forms"] += 1
+                    keys.append(f"compiled:{n}:{xpos}:{form}:{int(compact)}")
+                    ok = len(got) == len(vals) and all((g.startswith("r") and g[1:].isdigit()) if v == "x" else g == v for g, v in zip(got, vals))
+                    if not ok:
+                        vio.append(_v("compiled-call-operand-order", opcode=op, form=form, detail=f"y = {n}({argtext}) [compact={compact}] emits {op} <out> {' '.join(got)}; parameters are {params}"))
+                    elif sample is None and form == "keywords-reversed":
+                        sample = dict(kind="compiled-intrinsic", call=f"{n}({argtext})", emitted=f"{op} <out> {' '.join(got)}", parameters=params)
+    return vio, cnt, keys, sample or dict(kind="compiled-intrinsic")
+
+
 def check_enums():
     from stationeers_pytrapic import types_generated as TG
     from stationeers_pytrapic import utils as U
@@ -376,7 +437,7 @@ def check_enums():
 
 
 def check_case(case):
-    fn = dict(structures=check_structures, intrinsics=check_intrinsics, enums=check_enums)[case["stream"]]
+    fn = dict(structures=check_structures, intrinsics=check_intrinsics, enums=check_enums, compiled=check_compiled_intrinsics)[case["stream"]]
     vio, cnt, keys, sample = fn()
     cnt = dict(cnt)
     cnt["obligations"] = len(keys)
@@ -393,6 +454,6 @@ def run_case(task, i):
 
 def finish(agg, tier):
     c = agg["counters"]
-    if c.get("singular", 0) < 50 or c.get("wrappers_called", 0) < 50 or c.get("enum_classes", 0) < 5:
+    if c.get("singular", 0) < 50 or c.get("wrappers_called", 0) < 50 or c.get("enum_classes", 0) < 5 or c.get("compiled_keyword_forms", 0) < 100:
         return dict(inconclusive=f"tables barely visited: {dict(c)}")
     return dict(coverage=dict(exhaustive=True, evaluations=len(agg["keys"]), walks=agg["evaluations"]))
